@@ -188,7 +188,7 @@ def execute(ctx, FST, src, params, schedule, label):
                     if t is not None and t.parent is not None:
                         # pre-compute the follower for the "continues with what follows" clause
                         follower = None
-                        if a == 'remove' and rel == 'cur' and on == 'enter' and not back and recurse and all_ is True and not leaving:
+                        if a == 'remove' and rel == 'cur' and on == 'enter' and not back and recurse and all_ is True and not leaving and len(schedule) == 1:   # earlier actions (send(False), slice replacements) change what follows: judged in single-action schedules only
                             order = list(root.walk(True))
                             sub = {id(x) for x in g.walk(True)}
                             idx = next((i for i, x in enumerate(order) if x is g), None)
